@@ -156,7 +156,7 @@ def random_geometry(rng, nlegs=None, max_tilt_deg=20.0, max_inc_deg=75.0):
                 c_f=c_f, c_l=c_l, c_t=c_t, rho_f=float(rng.uniform(800, 1300)), rho_s=float(rng.uniform(2000, 9000)))
 
 
-def arim_path(geom, arim, physical=False, attenuation=None):
+def arim_path(geom, arim, physical=False, attenuation=None, decoy=None):
     """One-point Interfaces, Path and Rays for the traced ray (real arim objects).
     physical=True (immersion geometries only): couplant/block Materials, L/T modes and
     interface kinds / transmission-reflection flags as block_in_immersion builds them, so that
@@ -166,7 +166,15 @@ def arim_path(geom, arim, physical=False, attenuation=None):
     npts = len(pts)
     interfaces = []
     for i, p in enumerate(pts):
-        points = g.Points(np.array([[p[0], 0.0, p[1]]]))
+        if decoy is not None and 0 < i < npts - 1:
+            # a second, WRONG sample of the wall (shifted along the wall by `decoy`) stored before the exact crossing
+            # point: `path.decoy_rays` go through it (a first, coarse ray tracing), `path.rays` through the exact point
+            alpha_ = walls[i - 1][1]
+            tang = np.array([math.cos(alpha_), -math.sin(alpha_)])
+            q = np.asarray(p) + decoy * tang
+            points = g.Points(np.array([[q[0], 0.0, q[1]], [p[0], 0.0, p[1]]]))
+        else:
+            points = g.Points(np.array([[p[0], 0.0, p[1]]]))
         basis = g.default_orientations(points)
         kwargs = {}
         if 0 < i < npts - 1:
@@ -194,6 +202,9 @@ def arim_path(geom, arim, physical=False, attenuation=None):
     else:
         materials = [arim.Material(longitudinal_vel=v) for v in vels]
         path = arim.Path(interfaces, materials, ["L"] * len(vels))
-    rays = arim.ray.Rays(np.zeros((1, 1)), np.zeros((npts - 2, 1, 1), arim.settings.INT), path.to_fermat_path())
+    idx = 0 if decoy is None else 1
+    rays = arim.ray.Rays(np.zeros((1, 1)), np.full((npts - 2, 1, 1), idx, arim.settings.INT), path.to_fermat_path())
     path.rays = rays
+    if decoy is not None:
+        path.decoy_rays = arim.ray.Rays(np.zeros((1, 1)), np.zeros((npts - 2, 1, 1), arim.settings.INT), path.to_fermat_path())
     return path
